@@ -163,6 +163,7 @@ def run(rep, tier):
         tables[tname] = (f, {en: None for en in names})
     # convert overloads: value(to)/value(from)
     conv_of_enum = {}
+    by_value = []
     for f in F.find(UC + "convert"):
         rep.analysed(f)
         ps = f.j["params"]
@@ -181,7 +182,14 @@ def run(rep, tier):
                     detail = show(e)
         enum_name = ps[0]["type"].replace("const ", "").replace(" &", "").split("::")[-1] if ps else "?"
         if tname is None:
-            rep.broken("R20.1", "convert(%s) body not of the shape value(x)/value(y)" % enum_name)
+            # not literally value(to)/value(from): which table it consults, and what it returns for every ordered pair of units (decided below, by value)
+            helpers = sorted({n["callee"].split("::")[-1] for n in f.walk() if n.get("k") == "mcall" and (n.get("callee") or "").startswith(UC + "get")})
+            if len(helpers) != 1 or helpers[0] not in ENUM_OF_TABLE:
+                rep.broken("R20.1", "convert(%s): the table it consults was not found (%s)" % (enum_name, helpers))
+                continue
+            tname = helpers[0]
+            conv_of_enum[enum_name] = tname
+            by_value.append((f, enum_name, tname))
             continue
         conv_of_enum[enum_name] = tname
         rep.check(ok and ENUM_OF_TABLE.get(tname) == enum_name, "R20.1", "convert|" + enum_name,
@@ -226,6 +234,30 @@ def run(rep, tier):
         values[tname][en] = Fr(int(v.p), int(v.q))
         tables[tname][1][en] = fo.returns[0][2]
         return values[tname][en]
+
+    # convert overloads that are not literally value(to)/value(from): every ordered pair of units, against the reference sizes of the units
+    for f, enum_name, tname in by_value:
+        names = [e[0] for e in F.enum(T + enum_name)["enumerators"]]
+        ref = REF_TABLES.get(tname, (None, None))[1]
+        bad = None
+        for a_ in names:
+            for b_ in names:
+                sa, sb = S("%s::%s" % (T + enum_name, a_)), S("%s::%s" % (T + enum_name, b_))
+                ENUM_SYMS.add(sa)
+                ENUM_SYMS.add(sb)
+                fo = Fold(f, inline=lambda q, g_: q.startswith(UC + "get"))
+                fo.run({f.j["params"][0]["decl"]: sa, f.j["params"][1]["decl"]: sb})
+                if len(fo.returns) != 1 or not getattr(fo.returns[0][0], "is_number", False):
+                    raise AnalysisBroken("convert(%s): %s -> %s does not fold to a constant" % (enum_name, a_, b_))
+                got = sp.nsimplify(fo.returns[0][0], rational=True)
+                if ref is not None and a_ in ref and b_ in ref:
+                    want = sympy_rat(ref[b_]) / sympy_rat(ref[a_])
+                else:
+                    want = sympy_rat(value_of(tname, b_)) / sympy_rat(value_of(tname, a_))
+                if want == 0 or abs(got / want - 1) > sp.Rational(1, 10 ** 4):
+                    bad = bad or "convert(%s -> %s) = %s, the value is %s" % (a_, b_, float(got), float(want))
+        rep.check(bad is None, "R20.1", "convert|" + enum_name, "convert(from, to) for all %d ordered pairs of %s" % (len(names) ** 2, enum_name),
+                  "UnitConverter::convert(%s): %s" % (enum_name, bad), f.loc(), sample=True)
 
     n_pos = 0
     for tname, (f, tab) in tables.items():
